@@ -346,7 +346,9 @@ struct Real
 	void post(int pid)
 	{
 		auto* i = in;
-		sim::asio::post(ios, [i, pid]() { i->on_post(pid); });
+		// post() and defer() both queue the handler behind everything already queued and never run it inline
+		if (pid & 1) sim::asio::defer(ios, [i, pid]() { i->on_post(pid); });
+		else sim::asio::post(ios, [i, pid]() { i->on_post(pid); });
 	}
 	void run_to_quiescence()
 	{
